@@ -76,11 +76,16 @@ def set_history():
     return {"package": "inkayaku_engine_core", "append_to": "engine_core/src/engine/zobrist_history.rs", "module": _read("kani/history.rs")}
 
 
+def set_piece():
+    return {"package": "inkayaku_core", "append_to": "core/src/constants/piece.rs", "module": _read("kani/piece.rs")}
+
+
 def set_ucimove():
     return {"package": "inkayaku_uci", "append_to": "uci/src/uci.rs", "module": _read("kani/ucimove.rs")}
 
 
 SETS = {
+    "piece": set_piece,
     "attacks": set_attacks,
     "ucimove": set_ucimove,
     "history": set_history,
@@ -114,6 +119,9 @@ HARNESSES = {
     "history": {
         "count_repetitions_bounded_10": {"complete": False, "bound": "current ply index < 10 (symbolic hashes for plies 0..9, any u16 half-move clock); loops unwound 12 times with unwinding assertions",
                                          "note": "bounded stand-in next to the unbounded Verus proof of unit history"},
+    },
+    "piece": {
+        "piece_from_char_total_and_exact": {"complete": True, "note": "all chars, loop-free"},
     },
     "square": {
         "from_chars_total_and_exact": {"complete": True, "note": "all char x char pairs, loop-free"},
